@@ -75,7 +75,7 @@ class WindowReader(actors.Party):
 class C03(Check):
     prop = "C03"
     level = "exploration"
-    quick_runs = 16000
+    quick_runs = 12000
     thorough_runs = 400000
     rule = (
         "seeded histories (importer/editor per bucket, clean restarts) on a coarse lattice produce overlapping, nested, "
@@ -103,6 +103,11 @@ class C03(Check):
         for b in buckets:
             n = pr.randrange(1, 8)
             steps.append({"op": "insertN", "b": b, "evs": [{"ev": gen.event(pr, lat)} for _ in range(n)], "actor": "importer"})
+        if pr.random() < 0.04:
+            # a well-filled bucket (more than a page of anything), loaded out of chronological order
+            b = buckets[0]
+            for _ in range(2):
+                steps.append({"op": "insertN", "b": b, "evs": [{"ev": gen.event(pr, lat)} for _ in range(pr.choice([120, 260]))], "actor": "importer"})
         parties = []
         for k, b in enumerate(buckets):
             parties.append(actors.Importer(rs["imp%d" % k], cfg, b))
